@@ -30,6 +30,7 @@
 -/
 import TshVerif.Lemmas.ParserTypedBridge
 import TshVerif.Lemmas.ParserSigProg
+import TshVerif.Lemmas.ParserDefs
 import TshVerif.Lemmas.BashTotal
 namespace Tsh.C06
 open Tsh Tsh.Tr Tsh.Parser
@@ -170,5 +171,26 @@ private def sampleSrc : String :=
 #guard ((accepted sampleSrc).map (PT.sigSs [])) == some true
 -- the check the parser does not make: a `return` in a nested block with a value of the wrong type (known finding)
 #guard ((accepted "func f() int {\n\tif true {\n\t\treturn \"s\"\n\t}\n\treturn 1\n}\n").map PT.program) == some true
+
+/-- **A definition never changes the type of a variable that exists on the same level** (fix 4a3f869): whenever the definition
+    parser returns a statement, in any context, a written name under which the parser's lookup finds a variable `w` of the same
+    level (global flag) that has a type is defined with exactly `w`'s type - in `a, b := v1, v2` the value for an existing `a`
+    must have `a`'s type, as for a plain assignment.  (A name found on ANOTHER level - a global seen from a function body - is
+    a new variable of the function and may have any type.) -/
+theorem definition_keeps_the_type_of_an_existing_variable (fuel : Nat) (ctx : Ctx) (s s' : PSt) (st : Stmt)
+    (h : evalVarDefinition fuel ctx s = .ok st s') :
+    ∃ (pfx : String) (names : List Tok), (defVars st).length = names.length ∧
+      ∀ i (h1 : i < names.length) (h2 : i < (defVars st).length) (w : Var),
+        ctx.findVar names[i].val pfx ctx.global = some w → w.global = ctx.global → w.vt.dt ≠ .unknown →
+        (defVars st)[i].vt = w.vt := by
+  obtain ⟨pfx, names, short, _, h2, h3, _⟩ := def_varDefinition fuel ctx s st s' h
+  exact ⟨pfx, names, h2, fun i a b w hw hg hu => (h3 i a b).2.2 w hw hg hu⟩
+
+-- the defect the theorem excludes, and its neighbours
+#guard (accepted "a := 1\na, b := \"s\", 2\n").isNone
+#guard (accepted "a := 1\na, b := 5, 2\nprint(a + 1, b)\n").isSome
+#guard (accepted "func two() (string, int) {\n\treturn \"x\", 1\n}\na := 1\na, b := two()\n").isNone
+#guard (accepted "func two() (int, int) {\n\treturn 2, 1\n}\na := 1\na, b := two()\nprint(a, b)\n").isSome
+#guard (accepted "g := 1\nfunc f() {\n\tg, h := \"s\", 3\n\tprint(g + \"x\", h)\n}\nf()\nprint(g + 1)\n").isSome
 
 end Tsh.C06
